@@ -282,10 +282,23 @@ fn main() {
     }
     // (b) comparison laws on triples
     let n_law = a.n / 2;
+    // corpus of law instances first: the known temporal-string class and the repaired i2f witnesses
+    let st = |x: &str| V::String(x.to_string());
+    let law_corpus: Vec<(V, V, V)> = vec![
+        (st("20200101"), st("2020-01-01"), st("2020-x")),
+        (st("20200101"), st("2020-01-02"), st("2020-x")),
+        (V::Int(p53), V::Float(9007199254740992.0), V::Int(1 << 53)),
+        (V::Int(i64::MAX), V::Int(i64::MAX - 1), V::Float(9223372036854775808.0)),
+    ];
     for idx in 0..n_law {
-        let va = gen_value(&mut r, 2, 20);
-        let vb = if r.chance(1, 2) { mutate(&mut r, &va) } else { gen_value(&mut r, 2, 20) };
-        let vc = if r.chance(1, 2) { mutate(&mut r, &vb) } else { gen_value(&mut r, 2, 20) };
+        let (va, vb, vc) = if idx < law_corpus.len() {
+            law_corpus[idx].clone()
+        } else {
+            let va = gen_value(&mut r, 2, 20);
+            let vb = if r.chance(1, 2) { mutate(&mut r, &va) } else { gen_value(&mut r, 2, 20) };
+            let vc = if r.chance(1, 2) { mutate(&mut r, &vb) } else { gen_value(&mut r, 2, 20) };
+            (va, vb, vc)
+        };
         let (ab, ba, bc, ac, aa) = match (cmp6(&eng, &va, &vb), cmp6(&eng, &vb, &va), cmp6(&eng, &vb, &vc), cmp6(&eng, &va, &vc), cmp6(&eng, &va, &va)) {
             (Ok(p), Ok(q), Ok(s), Ok(t), Ok(u)) => (p, q, s, t, u),
             _ => {
